@@ -50,7 +50,7 @@ def cfg_jobs(multi, binsearch, greater, tier, ls=4, is_=4, reduced=False):
     import itertools
     q_ins = ['1', '4', '44', '24', '42', '234'] if not reduced else ['4']
     q_era = ['1', '2', '22', '23', '32'] if not reduced else ['2']
-    q_eri = ['1', '22'] if not reduced else []
+    q_eri = ['1', '22', '32'] if not reduced else []
     all12 = [''.join(t) for r in (1, 2) for t in itertools.product('234', repeat=r + 1)] + ['1', '2', '3', '4']
     for fl in sorted(set(q_ins + all12)):
         if len(fl) - 1 >= is_: continue
@@ -65,10 +65,17 @@ def cfg_jobs(multi, binsearch, greater, tier, ls=4, is_=4, reduced=False):
         # (a valid iterator is always found in the first candidate), the number of children for multisets; the recursion
         # gets bound 1 (depth <= 2).  Both bounds are proved by their unwinding assertions, not assumed.
         nchild = len(fl)
-        if multi and nchild > 2: continue            # > 10 GB of formula
+        if multi and nchild > 1: continue            # two loop iterations = two copies of the rebalancing code: > 14 GB of formula (measured); NOT DECIDED
         J('erase_iter_f' + fl, 'erase_iter', 'c_erase_iter', ERI, shape(fl), tier=tier if fl in q_eri else 'thorough',
           resolve={'ERID': r'erase_iter_descend\('}, unwindset=['{ERID}:1', '{ERID}.0:%d' % (nchild if multi else 1)], mem_gb=(5 * nchild if multi else 5),
           what='erase(iterator) at any position of any tree with leaf fills %s: exactly that element disappears, invariants, node ledger' % fl)
+    # three children: the middle leaf underflows between two siblings with spare keys (left fuller / right fuller); the
+    # designated position is fixed as well to keep these two in the quick tier (every position: erase_iter_f423 / _f324, thorough)
+    if not multi:
+        for fl in ('423', '324'):
+            J('erase_iter_f%s_l1s0' % fl, 'erase_iter', 'c_erase_iter', ERI, shape(fl) + ['FIX_LI=1', 'FIX_SLOT=0'], tier=tier if not reduced else 'thorough',
+              resolve={'ERID': r'erase_iter_descend\('}, unwindset=['{ERID}:1', '{ERID}.0:1'],
+              what='erase(iterator) of the first key of the middle leaf, leaf fills %s (underflow between two siblings with spare keys)' % fl)
     for fl in ('3', '23', '234'):
         J('clear_f' + fl, 'clear', 'c_clear', [r'clear\(\)', r'clear_recursive\(', r'free_node\('], shape(fl), tier='thorough', what='clear() / destructor with leaf fills %s' % fl)
     # count() walks over all duplicates: up to every key of the tree
@@ -94,6 +101,8 @@ META = {
     'assumptions': ['key type unsigned char (8-bit keys keep the order reasoning tractable for the SAT back end), comparators std::less / std::greater, set and multiset (value = key)',
                     'induction over the operation history is the stated composition step, restricted to trees within the depth bound'],
     'not_decided': ['trees deeper than 2 levels (inner-level merge/shift/split), insert into a tree whose root inner node is full (growth to depth 3)',
-                    'btree_map / btree_multimap, erase(iterator), copy / assignment / swap / bulk_load / comparison operators, node capacities other than 4/4'],
+                    'btree_map / btree_multimap, copy / assignment / swap / bulk_load / comparison operators, erase(key) removing all duplicates, node capacities other than 4/4',
+                    'erase(iterator) on a multiset whose root is an inner node (the duplicate scan over several leaves: two copies of the rebalancing code exceed 14 GB of formula); seeded change C01-m1 lives there and is NOT detected',
+                    'whole-tree mutating operations run once per tuple of leaf fill degrees: quick tier = the tuples listed in props/C01.py, thorough tier = every tuple for roots with 1 and 2 separators; other tuples (3, 4 separators) only as far as listed'],
     'explanation': 'every listed public operation enforced from an arbitrary well-formed tree of depth <= 2: verify()-conditions as representation invariant, view by ghost key/rank, node allocation ledger',
 }
